@@ -387,6 +387,38 @@ impl Prop for C18 {
                     }
                     cx.count("lef_libraries_with_markup_lookalike_strings");
                 }
+                // every fifth library: values the TYPE holds but LEF text never yields - a flag that is present and false, a list that is
+                // present and empty (a library built or edited in memory, or produced by another converter, has them)
+                if cx.n % 5 == 2 {
+                    let mut touched = 0u64;
+                    for m in lib.macros.iter_mut() {
+                        for lg in m.obs.iter_mut() {
+                            if lg.except_pg_net.is_none() && cx.rng.bool() {
+                                lg.except_pg_net = Some(false);
+                                touched += 1;
+                            }
+                        }
+                        for pin in m.pins.iter_mut() {
+                            for port in pin.ports.iter_mut() {
+                                for lg in port.layers.iter_mut() {
+                                    if lg.except_pg_net.is_none() && cx.rng.bool() {
+                                        lg.except_pg_net = Some(false);
+                                        touched += 1;
+                                    }
+                                }
+                            }
+                        }
+                        if m.symmetry.is_none() && cx.rng.chance(1, 3) {
+                            m.symmetry = Some(vec![]);
+                            touched += 1;
+                        }
+                        if m.density.is_none() && cx.rng.chance(1, 3) {
+                            m.density = Some(vec![]);
+                            touched += 1;
+                        }
+                    }
+                    cx.count_n("lef_present_but_false_or_empty_fields", touched);
+                }
                 let h = crate::rt::prng::strhash(&format!("{}{}", text, cx.n % 3));
                 for (i, f) in fmts.iter().enumerate() {
                     cx.nontrivial(h ^ i as u64);
